@@ -170,6 +170,69 @@ Definition print_severity (f_add_string : bytes -> bytes -> bytes -> bytes) (f_w
     end.
 Definition translated_print_severity := true.
 
+(* Entry.printPC  (returns pc.buf; None = panic) *)
+   (* argument not kept by the model (declared): pc *)
+Definition print_pc (f_add_string : bytes -> bytes -> bytes -> bytes) (f_add_int : bytes -> bytes -> Z -> bytes) (f_add_pstring : bytes -> bytes -> bytes -> bytes -> bytes) (f_add_pint : bytes -> bytes -> bytes -> Z -> bytes) (f_append_int : bytes -> Z -> bytes) (f_wrap_color_to : bytes -> Z -> bytes -> bytes) (f_replace_all : bytes -> bytes -> bytes -> bytes) (g_hex : bytes) (m_safeSet : list (Z * bool)) (g_flags : Z) (m_codeHostingProvidersMap : list (bytes * bytes)) (g_source : srcv) (pc : unit) (pc_noColor pc_jsonMode : bool) (pc_buf : bytes) : option bytes :=
+  if pc_noColor
+  then match pc_append_comma pc_jsonMode pc_buf with
+    | None => None
+    | Some pc_buf => let source_1 := (g_source) in
+      if pc_jsonMode
+      then match Escapes.string_key g_hex m_safeSet pc_jsonMode pc_buf [x63;x61;x6c;x6c;x65;x72] with
+      | None => None
+      | Some pc_buf => match pc_append_colon pc_jsonMode pc_buf with
+        | None => None
+        | Some pc_buf => match pc_append_byte pc_buf 123 with
+          | None => None
+          | Some pc_buf => let pc_buf := f_add_string pc_buf [x66;x69;x6c;x65] (src_file source_1) in
+            match pc_append_comma pc_jsonMode pc_buf with
+            | None => None
+            | Some pc_buf => let pc_buf := f_add_int pc_buf [x6c;x69;x6e;x65] (src_line source_1) in
+              match pc_append_comma pc_jsonMode pc_buf with
+              | None => None
+              | Some pc_buf => let pc_buf := f_add_string pc_buf [x66;x75;x6e;x63;x74;x69;x6f;x6e] (src_function source_1) in
+                match pc_append_byte pc_buf 125 with
+                | None => None
+                | Some pc_buf => Some (pc_buf)
+                end
+              end
+            end
+          end
+        end
+      end
+      else let pc_buf := f_add_pstring pc_buf [x63;x61;x6c;x6c;x65;x72] [x66;x69;x6c;x65] (src_file source_1) in
+      match pc_append_comma pc_jsonMode pc_buf with
+      | None => None
+      | Some pc_buf => let pc_buf := f_add_pint pc_buf [x63;x61;x6c;x6c;x65;x72] [x6c;x69;x6e;x65] (src_line source_1) in
+        match pc_append_comma pc_jsonMode pc_buf with
+        | None => None
+        | Some pc_buf => let pc_buf := f_add_pstring pc_buf [x63;x61;x6c;x6c;x65;x72] [x66;x75;x6e;x63;x74;x69;x6f;x6e] (src_function source_1) in
+          Some (pc_buf)
+        end
+      end
+    end
+  else let source := (g_source) in
+  match pc_append_byte pc_buf 32 with
+    | None => None
+    | Some pc_buf => let pc_buf := pc_buf ++ (src_file source) in
+      match pc_append_byte pc_buf 58 with
+      | None => None
+      | Some pc_buf => let pc_buf := f_append_int pc_buf (src_line source) in
+        match pc_append_byte pc_buf 32 with
+        | None => None
+        | Some pc_buf => match checked_funcname f_replace_all g_flags m_codeHostingProvidersMap (src_function source) with
+          | None => None
+          | Some r1_ => let pc_buf := f_wrap_color_to pc_buf 90 r1_ in
+            match Colors.echo_reset pc_buf with
+            | None => None
+            | Some pc_buf => Some (pc_buf)
+            end
+          end
+        end
+      end
+    end.
+Definition translated_print_pc := true.
+
 (* Entry.printImpl  (the statements after the blank-line rule; returns (deliveries, context); None = panic) *)
    (* argument not kept by the model (declared): pc.kvps *)
 Definition print_impl {R E D : Type} (f_begin f_timestamp f_name f_severity f_msg f_first f_pc f_rest : pcs R -> pcs R) (f_attrs : pcs R -> E * pcs R) (f_errdump : pcs R -> E -> pcs R) (f_end : pcs R -> bool -> pcs R) (f_bytes : pcs R -> bytes) (d_printout : Z -> bytes -> D) (m_mLevelColors : list (Z * list Z)) (g_flags : Z) (pc : pcs R) (tr_ : list D) : option (list D * pcs R) :=
